@@ -283,7 +283,10 @@ def main(argv=None):
             else:
                 violations.append(dict(cond=r["cond"], args=ce_args, signature=res, message=entry.get("message")))
         elif verdict == "PRE_UNSAT":
-            harness_errors.append("vacuous cube %s %s" % (r["cond"], r["pre"]))
+            if any(p.startswith("not (") for p in r["pre"][1:]):
+                entry["note"] = "cube lies entirely inside a known-finding region (only the witness is replayed)"
+            else:
+                harness_errors.append("vacuous cube %s %s" % (r["cond"], r["pre"]))
         else:
             harness_errors.append("harness error in %s %s: %s" % (r["cond"], r["pre"], (r.get("message") or "")[-600:]))
 
@@ -292,7 +295,7 @@ def main(argv=None):
     n_queries = sum(c.get("queries") or 0 for c in cubes_ev)
     n_reached = sum(c.get("reached") or 0 for c in check_cubes)
     solver_s = round(sum(c.get("solver_s") or 0 for c in cubes_ev), 2)
-    confirmed = sum(1 for c in check_cubes if c["verdict"] == "CONFIRMED")
+    confirmed = sum(1 for c in check_cubes if c["verdict"] == "CONFIRMED" or c.get("note"))
 
     # ---- violations -> replay files ---------------------------------------------------------------------------
     rc = 0
